@@ -14,8 +14,16 @@ NANV = 99
 PINF, NINF = 98, 97          # +inf exceeds every threshold, -inf none (markers of the specification)
 
 
+SQUEEZE = "squeeze"      # values AND thresholds through the increasing map k -> 1 + k * 2^-40 (exact): the order, hence every marker, is
+                         # unchanged, while a value above a threshold exceeds it by 1e-12 relative only
+
+
+def tmap(t, scale):
+    return 1.0 + t * 2.0 ** -40 if scale == SQUEEZE else t / scale
+
+
 def fval(v, scale):
-    return float("nan") if v == NANV else float("inf") if v == PINF else float("-inf") if v == NINF else v / scale
+    return float("nan") if v == NANV else float("inf") if v == PINF else float("-inf") if v == NINF else tmap(v, scale)
 
 
 def call_split(m):
@@ -60,7 +68,7 @@ def call_seg(rows, thr, mode, scale=1, dup=False):
         if dup and j == 1:
             continue
         vals = [fval(r[j], scale) for r in rows]
-        if carrier == 1:
+        if carrier == 1 and scale != SQUEEZE:            # (single precision cannot hold 1 + 2^-40)
             import numpy as np
             vals = [np.float32(v) for v in vals]                    # quarters and small integers are exact in single precision
         elif carrier == 2 and scale == 1:
@@ -90,9 +98,9 @@ def call_seg(rows, thr, mode, scale=1, dup=False):
     try:
         with core.quiet():
             if k == 1 and n % 2:
-                segmentation(tr, names[0], outn, thr[0] / scale, MODE_COMPARAISON_AND if mode == "and" else MODE_COMPARAISON_OR)
+                segmentation(tr, names[0], outn, tmap(thr[0], scale), MODE_COMPARAISON_AND if mode == "and" else MODE_COMPARAISON_OR)
             else:
-                segmentation(tr, names, outn, [t / scale for t in thr], MODE_COMPARAISON_AND if mode == "and" else MODE_COMPARAISON_OR)
+                segmentation(tr, names, outn, [tmap(t, scale) for t in thr], MODE_COMPARAISON_AND if mode == "and" else MODE_COMPARAISON_OR)
             out = [tr[outn, i] for i in range(n)]
         e["out"] = [int(v) if v in (0, 1) else 7 for v in out]
     except (Exception, SystemExit) as ex:
@@ -116,6 +124,7 @@ def job_seg(args):
     for thr in itertools.product([0, 1, 2], repeat=k):
         for mode in ("and", "or"):
             out.append(call_seg(rows, thr, mode))
+            out.append(call_seg(rows, thr, mode, scale=SQUEEZE))
     if k >= 2:
         rows_d = [(r[0],) + tuple(r) for r in itertools.product([0, 1, 2, NANV, PINF, NINF], repeat=k - 1)]
         for thr in itertools.product([0, 1, 2], repeat=k):
